@@ -970,6 +970,28 @@ fn glyph_raster_class(doc: &J) -> Option<&'static str> {
         _ => return None,
     };
     let mut class = None;
+    // a scene glyph with zero width and non-zero height: the rasterize crate indexes an empty row
+    // (rasterize.rs:111); the size is the LAST `size` entry, as the visitor keeps it
+    let has_scene = fields.iter().any(|(k, _)| k == "scene");
+    let size_hw = fields.iter().rev().find(|(k, _)| k == "size").and_then(|(_, v)| match v {
+        J::A(a) if a.len() == 2 => match (&a[0], &a[1]) {
+            (J::U(h), J::U(w)) => Some((*h, *w)),
+            _ => None,
+        },
+        J::O(o) => {
+            let get = |name: &str| o.iter().rev().find(|(k, _)| k == name).and_then(|(_, v)| if let J::U(x) = v { Some(*x) } else { None });
+            match (get("height"), get("width")) {
+                (Some(h), Some(w)) => Some((h, w)),
+                _ => None,
+            }
+        }
+        _ => None,
+    });
+    if let (true, Some((h, 0))) = (has_scene, size_hw) {
+        if h > 0 {
+            class = Some("glyph-degenerate-geometry");
+        }
+    }
     for (k, v) in fields.iter() {
         match (k.as_str(), v) {
             ("size", J::A(a)) if a.len() == 2 => {
